@@ -17,7 +17,7 @@ from symx import alg
 from harness import pipeline as pl
 from oracles import rs274
 
-ROLES_E = ["RET", "REC", "PRINT", "TRAVEL", "ZHOP", "SETE", "G20", "G21", "TRAVELX"]
+ROLES_E = ["RET", "REC", "PRINT", "TRAVEL", "ZHOP", "SETE", "G20", "G21", "TRAVELX", "TRAVELE"]
 ROLES_FW = ["FRET", "FREC", "FRET1", "FREC1", "PRINT", "TRAVEL", "SETE", "G20", "TRAVELX"]
 
 KF_OWED_MOVE = "owed_recovery_before_move_with_xyz"
@@ -68,6 +68,10 @@ def scen(w, which="C04", K=4, firmware=0, kinds="r", roles=None):
         elif role == "TRAVEL":
             x, y = w.real("c%d_X" % pipe.k), w.real("c%d_Y" % pipe.k)
             text = "G1 X%s Y%s" % (w.key(x), w.key(y))
+        elif role == "TRAVELE":
+            x, y, e = w.real("c%d_X" % pipe.k), w.real("c%d_Y" % pipe.k), w.real("c%d_E" % pipe.k)
+            text = "G1 X%s Y%s E%s" % (w.key(x), w.key(y), w.key(e))
+            w.assume(alg.eq(e * V.u, V.e))          # the E word restates the current extruder position
         elif role == "TRAVELX":
             x = w.real("c%d_X" % pipe.k)
             text = "G0 X%s" % w.key(x)
